@@ -42,6 +42,26 @@ func init() {
 		vhPath + ".Ite64": func(x *Exec, fv FuncV, a []Value) Value {
 			return x.ts.Ite(a[0].(*Term), a[1].(*Term), a[2].(*Term))
 		},
+		vhPath + ".SigOK": func(x *Exec, fv FuncV, a []Value) Value {
+			pk := x.cellTerms(a[0].(Agg))
+			msg := x.cellTerms(a[1].(Agg))
+			sig := x.cellTerms(a[2].(Agg))
+			return x.sigOK(x.ts.Concat(pk...), x.ts.Concat(msg...), x.ts.Concat(sig...))
+		},
+		vhPath + ".Sign": func(x *Exec, fv FuncV, a []Value) Value {
+			pk := x.cellTerms(a[0].(Agg))
+			msg := x.cellTerms(a[1].(Agg))
+			app := x.ts.UF("SIG_32", 512, x.ts.Concat(pk...), x.ts.Concat(msg...))
+			out := make(Agg, 64)
+			for i := 0; i < 64; i++ {
+				out[i] = x.ts.Extract(app, 511-8*i, 504-8*i)
+			}
+			return out
+		},
+		vhPath + ".Sha256": func(x *Exec, fv FuncV, a []Value) Value {
+			b := x.cellTerms(a[0].(Agg))
+			return x.hashToAgg(x.ts.UF(fmt.Sprintf("S256_%d", len(b)), 256, x.ts.Concat(b...)))
+		},
 		vhPath + ".Note":        func(x *Exec, fv FuncV, a []Value) Value { x.event("note", x.cstr(a[0])); return nil },
 		vhPath + ".TrackWrites": vhTrackWrites,
 		vhPath + ".MarkCaller":  vhMarkCaller,
@@ -219,6 +239,14 @@ func (x *Exec) sliceBytes(s SliceV) []*Term {
 			x.abort("unsupported", fmt.Sprintf("byte slice cell is %T", s.Obj.Cells[s.Off+i]))
 		}
 		out[i] = t
+	}
+	return out
+}
+
+func (x *Exec) cellTerms(a Agg) []*Term {
+	out := make([]*Term, len(a))
+	for i, c := range a {
+		out[i] = c.(*Term)
 	}
 	return out
 }
@@ -420,6 +448,13 @@ func (x *Exec) ufAxioms(t *Term) []*Term {
 		}
 		return ax
 	}
+	if strings.HasPrefix(t.Name, "SIG_") {
+		n := t.Args[1].W
+		return []*Term{
+			ts.Eq(ts.UF("SIGmsg_"+t.Name[4:], n, t), t.Args[1]),
+			ts.Eq(ts.UF("SIGpk_"+t.Name[4:], 256, t), t.Args[0]),
+		}
+	}
 	if t.Name == "mul64hi" || t.Name == "mul64lo" {
 		return x.mulAxioms(t)
 	}
@@ -519,9 +554,17 @@ func edVerify(x *Exec, fv FuncV, a []Value) Value {
 	if len(msg) == 0 {
 		x.abort("unsupported", "ed25519.Verify of empty message")
 	}
-	app := ts.UF(fmt.Sprintf("sigok_%d", len(msg)), 0, ts.Concat(pk...), ts.Concat(msg...), ts.Concat(sig...))
-	x.sigApps = append(x.sigApps, app)
-	return app
+	return x.sigOK(ts.Concat(pk...), ts.Concat(msg...), ts.Concat(sig...))
+}
+
+// sigOK is the ideal signature model: for each (key, message) there is exactly
+// one valid signature SIG(pk,m), and a signature determines its key and
+// message (axioms msgOf(SIG(pk,m)) = m, pkOf(SIG(pk,m)) = pk, added per
+// application). Verification is sig == SIG(pk,m).
+func (x *Exec) sigOK(pk, msg, sig *Term) *Term {
+	ts := x.ts
+	app := ts.UF(fmt.Sprintf("SIG_%d", msg.W/8), 512, pk, msg)
+	return ts.Eq(sig, app)
 }
 
 // ---- errors ----
